@@ -972,6 +972,11 @@ class RefCircuit(Model):
         for n in c:
             if f"{name}_{n}" in self.graph:
                 raise ModelRaise("ValueError", "name overlap")
+        # the wiring rules hold for the merged nodes too: an output of `c` that is a pin of one of its own blackboxes cannot take
+        # over the loads of the pin it replaces (a blackbox input has no fan-out, a blackbox output one load)
+        for o in c.outputs():
+            if f"{name}.{o}" in self.graph and self.fanout(f"{name}.{o}") and (c.type(o) == "bb_input" or (c.type(o) == "bb_output" and c.fanout(o))):
+                raise ModelRaise("ValueError", "an output that is a blackbox pin cannot drive the loads of the filled pin")
         self.relabel({f"{name}.{n}": f"{name}_{n}" for n in bb.io()})
         g = MNx().relabel_nodes(c.graph, {n: f"{name}_{n}" for n in c})
         self.graph.update(g)
